@@ -1,6 +1,7 @@
 package rules
 
 import (
+	"fmt"
 	"go/token"
 	"go/types"
 	"strings"
@@ -333,6 +334,270 @@ func runC01(c *Ctx) {
 			c.Check(bad == "", "C01.3-tree-lock", FuncName(h)+"|released on all exits, not held across send", p.Pos(h.Pos()), orDefault(bad, "tree lock released on every exit; no send under the lock"))
 		}
 	}
+	runC01OwnNode(c)
+	runC01Realign(c)
+	runC01CommonSnapshot(c)
+}
+
+// runC01CommonSnapshot — C01.6: with several heads, reduceTree re-roots at the
+// snapshot of the first head's path that is common to ALL heads, i.e. at the
+// MAXIMUM over the heads of the index at which each head's snapshot chain meets
+// that path. The index handed to makeRootAndRemove(path[k]) must therefore be a
+// max-accumulator: a new value replaces it only across `new > current` (or via
+// the max builtin). Taking the last head's index instead drops changes that
+// replicas reducing correctly keep.
+func runC01CommonSnapshot(c *Ctx) {
+	p := c.P
+	rule := "C01.6-common-snapshot-max"
+	fn := p.Func(otPkg + ":(*Tree).reduceTree")
+	mrr := p.Func(otPkg + ":(*Tree).makeRootAndRemove")
+	c.Fn(FuncName(fn))
+	var k ssa.Value
+	for _, cs := range CallSinks(fn, CalleeFn(mrr), false) {
+		arg := cs.(*ssa.Call).Call.Args[1]
+		if u, ok := arg.(*ssa.UnOp); ok {
+			if ia, ok := u.X.(*ssa.IndexAddr); ok {
+				if _, isConst := ia.Index.(*ssa.Const); !isConst {
+					k = ia.Index
+				}
+			}
+		}
+	}
+	if k == nil {
+		c.Hold(rule, FuncName(fn)+"|root index is a maximum", p.Pos(fn.Pos()), "reduceTree no longer re-roots at an indexed element of the snapshot path: shape not recognised, clause not decided")
+		c.Note("C01.6: shape not recognised; not decided")
+		return
+	}
+	web := map[ssa.Value]bool{}
+	var grow func(v ssa.Value)
+	grow = func(v ssa.Value) {
+		if web[v] {
+			return
+		}
+		if ph, ok := v.(*ssa.Phi); ok {
+			web[v] = true
+			for _, e := range ph.Edges {
+				if _, isPhi := e.(*ssa.Phi); isPhi {
+					grow(e)
+				}
+			}
+		}
+	}
+	grow(k)
+	bad := ""
+	if len(web) == 0 {
+		bad = "the index of the new root is not accumulated over the heads (it is " + describeOperand(k) + ")"
+	}
+	inWeb := func(v ssa.Value) bool { return web[v] }
+	guarded := func(v ssa.Value, pred *ssa.BasicBlock) bool {
+		if call, ok := v.(*ssa.Call); ok {
+			if b, ok := call.Call.Value.(*ssa.Builtin); ok && b.Name() == "max" {
+				for _, a := range call.Call.Args {
+					if inWeb(a) {
+						return true
+					}
+				}
+			}
+		}
+		for _, b := range fn.Blocks {
+			if len(b.Instrs) == 0 {
+				continue
+			}
+			iff, ok := b.Instrs[len(b.Instrs)-1].(*ssa.If)
+			if !ok {
+				continue
+			}
+			a := AtomOf(iff)
+			greaterWhenTrue := false
+			switch {
+			case (a.Op == token.GTR || a.Op == token.GEQ) && a.X == v && inWeb(a.Y):
+				greaterWhenTrue = true
+			case (a.Op == token.LSS || a.Op == token.LEQ) && a.Y == v && inWeb(a.X):
+				greaterWhenTrue = true
+			default:
+				continue
+			}
+			_ = greaterWhenTrue
+			ts := b.Succs[a.TrueSucc()]
+			if ts == pred || edgeDom(b, ts, pred) {
+				return true
+			}
+		}
+		return false
+	}
+	for ph := range web {
+		phi := ph.(*ssa.Phi)
+		for i, e := range phi.Edges {
+			if inWeb(e) {
+				continue
+			}
+			if _, isConst := e.(*ssa.Const); isConst {
+				continue
+			}
+			if !guarded(e, phi.Block().Preds[i]) {
+				bad = "the root index takes the value " + describeOperand(e) + " (from block ending at " + p.Pos(InstrPos(phi.Block().Preds[i].Instrs[len(phi.Block().Preds[i].Instrs)-1])) + ") without the test `new > current`: it is the last head's index, not the maximum over all heads"
+			}
+		}
+	}
+	c.Check(bad == "", rule, FuncName(fn)+"|root index is a maximum", p.Pos(fn.Pos()), orDefault(bad, "the index of the common snapshot only grows: it is replaced only across `new index > current`"))
+}
+
+// runC01Realign — C01.3 (shared with C10 rule M): a replica "never holds or
+// advertises a change without its ancestors" and converges on the stored set
+// only if, whenever accepting changes fails after the live tree was already
+// mutated, the tree is brought back in line with storage. The obligations are
+// the objecttree rows of C10's rule M, evaluated by the same code.
+func runC01Realign(c *Ctx) {
+	sub := NewCtx(c.P, "C10", c.Tier)
+	runC10(sub)
+	n := 0
+	for _, o := range sub.Obls {
+		if o.Rule != "C10.M-realign-on-error" || !strings.Contains(o.Key, "objecttree.objectTree)") {
+			continue
+		}
+		n++
+		construct := strings.TrimPrefix(o.Key, o.Rule+"|")
+		c.Check(o.Held, "C01.3-realign-on-error", construct, o.Pos, o.Detail)
+	}
+	for f := range sub.Funcs {
+		if strings.Contains(f, "objecttree.objectTree)") {
+			c.Fn(f)
+		}
+	}
+	c.Min("C01.3-realign-on-error", 3)
+	_ = n
+}
+
+// runC01OwnNode — C01.5: Tree.makeRootAndRemove re-roots the tree at a node and
+// prunes through that node's Previous/Next links; the node must be one of the
+// SAME tree (looked up in its attached index, or its root), never a *Change of
+// another Tree instance carrying the same id (e.g. the tree that was just
+// replaced by a rebuild): that object's links lead into the discarded tree and
+// the live tree keeps changes the replicas that reduced correctly have dropped.
+func runC01OwnNode(c *Ctx) {
+	p := c.P
+	rule := "C01.5-reroot-own-node"
+	mrr := p.Func(otPkg + ":(*Tree).makeRootAndRemove")
+	fAttached := p.Field(otPkg + ":Tree.attached")
+	fRoot := p.Field(otPkg + ":Tree.root")
+	n := 0
+	for _, fn := range p.FuncsOfPkg(otPkg) {
+		if isTestSupport(p, fn) {
+			continue
+		}
+		for _, cs := range CallSinks(fn, CalleeFn(mrr), false) {
+			call := cs.(*ssa.Call)
+			recv, arg := call.Call.Args[0], call.Call.Args[1]
+			n++
+			c.Fn(FuncName(fn))
+			// same tree: identical value, or loads of the same field with no store to it in between
+			sameTree := func(base ssa.Value) bool {
+				if base == recv {
+					return true
+				}
+				fa, ba := LoadedField(base)
+				fb, bb := LoadedField(recv)
+				if fa == nil && fb == nil {
+					return shareOrigin(base, recv)
+				}
+				if fa == nil || fa != fb || !(ba == bb || shareOrigin(ba, bb)) {
+					return false
+				}
+				bi, ok1 := base.(ssa.Instruction)
+				ri, ok2 := recv.(ssa.Instruction)
+				if !ok1 || !ok2 {
+					return false
+				}
+				for _, w := range FieldWrites([]*ssa.Function{fn}, fa) {
+					if w.Kind != "store" {
+						continue
+					}
+					fromBase := Reach(fn, ReachOpts{From: bi})
+					fromStore := Reach(fn, ReachOpts{From: w.Instr})
+					if fromBase.Reachable(w.Instr) && fromStore.Reachable(ri) {
+						return false
+					}
+				}
+				return true
+			}
+			why := ""
+			seen := map[ssa.Value]bool{}
+			var own func(v ssa.Value, d int) bool
+			own = func(v ssa.Value, d int) bool {
+				if v == nil || d > 25 {
+					why = "origin too deep"
+					return false
+				}
+				if seen[v] {
+					return true
+				}
+				seen[v] = true
+				switch x := v.(type) {
+				case *ssa.Phi:
+					for _, e := range x.Edges {
+						if !own(e, d+1) {
+							return false
+						}
+					}
+					return true
+				case *ssa.Extract:
+					if lk, ok := x.Tuple.(*ssa.Lookup); ok && x.Index == 0 {
+						return own(lk, d+1)
+					}
+				case *ssa.Lookup:
+					if f, base := LoadedField(x.X); f == fAttached {
+						if sameTree(base) {
+							return true
+						}
+						why = "looked up in the attached index of a different Tree value"
+						return false
+					}
+				case *ssa.Const:
+					return x.Value == nil
+				case *ssa.UnOp:
+					if f, base := LoadedField(x); f == fRoot {
+						if sameTree(base) {
+							return true
+						}
+						why = "the root of a different Tree value (" + describeOperand(base) + ")"
+						return false
+					}
+					if ia, ok := x.X.(*ssa.IndexAddr); ok {
+						apps := appendsFeeding(ia.X)
+						if len(apps) == 0 {
+							why = "element of a slice with no recognised producer"
+							return false
+						}
+						for _, ap := range apps {
+							for _, e := range appendedElems(ap) {
+								if !own(e, d+1) {
+									return false
+								}
+							}
+						}
+						return true
+					}
+					vals, unk := Origins(x)
+					if !unk && len(vals) > 0 && !(len(vals) == 1 && vals[0] == v) {
+						for _, o := range vals {
+							if !own(o, d+1) {
+								return false
+							}
+						}
+						return true
+					}
+				}
+				if why == "" {
+					why = "value " + describeOperand(v) + " is not taken from this tree's attached index or root"
+				}
+				return false
+			}
+			ok := own(arg, 0)
+			c.Check(ok, rule, fmt.Sprintf("%s|makeRootAndRemove argument #%d", FuncName(fn), n), p.Pos(call.Pos()),
+				orDefault(map[bool]string{false: "the node handed to makeRootAndRemove is not a node of the tree it is called on: " + why}[ok], "the new root is looked up in (or is the root of) the tree it is installed into"))
+		}
+	}
+	c.Min(rule, 4)
 }
 
 // deferredAfter: a defer of a call matching m follows `at` in its block or in
